@@ -39,13 +39,18 @@ BlendK(t, k) == LET vals == [m \in 1..Len(t.kern) |-> 8 * t.kern[m][k][3]]
                 IN IF t.round THEN (IF v >= 0 THEN 32 * OtRound(v, 32) ELSE -(32 * OtRound(-v, 32))) ELSE v
 BlendI(t, a) == LET v == BlendVal([m \in 1..Len(t.info) |-> 8 * t.info[m][a]], t.locs, t.loc)
                 IN IF t.round THEN 32 * OtRound(v, 32) ELSE v
-BadGlyphs(t) == {n \in DOMAIN t.inst : n \in DOMAIN t.masters[t.default] /\ t.inst[n] # Expected(t, n)}
+\* Two-axis families: the variation model (fontTools.varLib.models.VariationModel over the masters' normalised locations, in the
+\* designspace's AXIS ORDER) is environment; the harness evaluates it on the raw master values and hands the rounded blend
+\* over as `expected2` / `expKern` / `expInfo`; the specification states what has to equal what
+Exp2(t) == Has(t, "expected2")
+BadGlyphs(t) == IF Exp2(t) THEN {n \in DOMAIN t.inst : n \in DOMAIN t.expected2 /\ t.inst[n] # t.expected2[n]}
+                ELSE {n \in DOMAIN t.inst : n \in DOMAIN t.masters[t.default] /\ t.inst[n] # Expected(t, n)}
 Clauses(t) ==
   IF Has(t, "err") THEN << <<"instantiates", FALSE>> >> ELSE
   << <<"glyph-set-is-default-source", DOMAIN t.inst = DOMAIN t.masters[t.default]>>,
      <<"outline-is-model-blend", BadGlyphs(t) = {}>>,
-     <<"kerning-is-model-blend", \A k \in 1..Len(t.instKern) : t.instKern[k][3] = BlendK(t, k)>>,
-     <<"info-is-model-blend", \A a \in DOMAIN t.instInfo : t.instInfo[a] = BlendI(t, a)>>,
+     <<"kerning-is-model-blend", IF Exp2(t) THEN t.instKern = t.expKern ELSE \A k \in 1..Len(t.instKern) : t.instKern[k][3] = BlendK(t, k)>>,
+     <<"info-is-model-blend", IF Exp2(t) THEN t.instInfo = t.expInfo ELSE \A a \in DOMAIN t.instInfo : t.instInfo[a] = BlendI(t, a)>>,
      \* groups (kerning groups and ordinary ones alike) keep their order; members named by an active rule are exchanged
      <<"groups-follow-swaps", \A k \in 1..Len(t.groups) :
                                  t.instGroups[k][2] = [j \in 1..Len(t.groups[k][2]) |-> SwapName(t.swaps, t.groups[k][2][j])]>>,
